@@ -178,6 +178,8 @@ Definition C13_total_on_dumps_full_statement : Prop :=
    OrderedDict / defaultdict; slices; function and type names; attrgetter / itemgetter; numpy arrays and scalars; sparse
    matrices; dtypes; masked arrays; RandomState / Generator; functools.partial; bytes / bytearray; object arrays of EVERY
    rank (0 included: C13-F1 repaired, the content of the array's state is a list for every rank) with cells in the fragment;
+   user objects on the generic object path (ObjectNode / ConstructorFromReduceNode: any class whose name resolves, any state /
+   argument tuple of the fragment: estimators, pipelines, sparse arrays; VisTotalFacts.objstate_PV / objreduce_PV / objnostate_PV);
    arbitrary sharing of sub-objects; nesting depth below get_tree's fuel), every load environment E with this run's registry and protocol and the archive's member
    list (whatever the node classes' default-trusted names are), every skipped-kind list containing SliceNode, and EVERY
    trusted list T there are a root row r (level 0) and a pre-order forest f of rows at levels >= 1 (first child / next
@@ -428,3 +430,9 @@ Example C13_former_witnesses_one_line :
   /\ print_lines [27%N] [{| r_level := 0; r_key := s "k"; r_val := s "x.y"; r_self_safe := false; r_safe := false; r_last := true |}]
      = [s "k: x.y \x1b"].
 Proof. repeat split; vm_compute; reflexivity. Qed.
+
+(* user objects are values of the proved fragment: an object reachable from three places, non-dict states, an object without
+   state, a __reduce__ constructor (CodecWitness.w_objects) *)
+Example C13_total_on_dumps_objects_nonvacuous :
+  c05_guard wf (wd Snapshot.current) wbase w_objects = true.
+Proof. vm_compute. reflexivity. Qed.
